@@ -28,6 +28,7 @@ THEOREMS = [
     "BeyondVerif.C08.numerical_iter_dates_partial",
     "BeyondVerif.C08.numerical_iter_step_partial",
     "BeyondVerif.C08.boundVal_bind",
+    "BeyondVerif.C08.exec_inv",
     "BeyondVerif.C08.call_result_pure",
     "BeyondVerif.C08.propagate_pure",
     "BeyondVerif.C08.iter_eq_map_propagate",
@@ -41,6 +42,8 @@ THEOREMS = [
     "BeyondVerif.C08W.ephem_backward_yields_nothing",
     "BeyondVerif.C08W.ephem_empty_list_yields_all",
     "BeyondVerif.C08W.analytical_empty_list_raises",
+    "BeyondVerif.C08W.sgp4_stale_after_modify",
+    "BeyondVerif.C08W.kepler_follows_modify",
 ]
 LEVEL_TEXT = ("Lean theorems over an integer-microsecond model of Date.range, AnalyticalPropagator.iter, NumericalPropagator.iter + KeplerNum._iter, "
               "Ephem.iter and of the binding / listener state: for all epochs, starts, stops, steps (any sign, dividing the span or not) the analytical "
@@ -52,7 +55,7 @@ LEVEL_TEXT = ("Lean theorems over an integer-microsecond model of Date.range, An
               "Listener.prev) on every run and by constants / setter kinds regenerated from the source.")
 LEVEL_NOTE = ("model hand-written (control flow), tied by exact correspondence; dates are exact integers in the model while Date carries float seconds "
               "(inputs on a 0.125 s grid where the float arithmetic is exact; date arithmetic itself is C03's); yielded STATES are abstract in the model "
-              "(f(orbit value, date)) and compared on the real API by the oracle only; 7 clauses are false of the current code (known findings); "
+              "(f(orbit value, date)) and compared on the real API by the oracle only; 8 clauses are false of the current code (known findings); "
               "Lean kernel + propext/Classical.choice/Quot.sound")
 TECHNIQUE = "Lean 4 proof by induction over the iteration loops and over call histories + kernel decide counter-witnesses; exact model/implementation correspondence"
 TRUSTED = [
@@ -65,28 +68,37 @@ ASSUMPTIONS = [
     "dates are exact integers (microseconds) in the model; the implementation adds float seconds - exact on the generated 0.125 s grid, not in general (C03)",
     "KeplerNum with a fixed-step method (rk4/euler) and self.step > 0: real_step == self.step; adaptive methods change the internal grid and are not modelled",
     "a call is atomic: a suspended generator is either dropped or never resumed after another call on the same objects",
-    "the receiver is not modified between calls by the user (Sgp4 / NonePropagator keep the object itself: a user modification after binding would be seen, one before re-binding of a copying propagator would not)",
+    "in-place modifications of an orbit by the user happen between calls (modelled as the call `modify`), not while an iterator is suspended",
 ]
 NOT_COVERED = [
     "receiver_unchanged: in the model calls have no write access to the orbit store (a modelling decision, not a theorem); on the real code it is checked by the oracle's before/after snapshots (array bytes, date, form, frame, maneuvers, propagator identity) only",
     "equality of each yielded state with a direct propagation is by construction in the model (states are f(value, date)); on the real code: oracle, bitwise for analytical propagators and Ephem, 1 m / 1 mm/s for KeplerNum (two different RK4 paths)",
     "resuming a suspended generator after another orbit was bound to the same shared propagator follows the LAST bound orbit (AnalyticalPropagator.iter reads self.orbit lazily) - outside the atomic-call assumption",
-    "a failed Sgp4 binding (Tle.from_orbit raises) leaves propagator._orbit set with the previous satellite record: the next call on that orbit skips the re-binding (observed once with an invalid orbit; not part of the quantifier)",
+    "a failed Sgp4 binding (Tle.from_orbit raises) leaves propagator._orbit set with the previous satellite record: the next call on that orbit skips the re-binding (observed once with an invalid orbit; not part of the quantifier; repaired by proposed fix C08-g as a side effect)",
     "event search (_bisect) is C10's; listeners enter here only through clear_listeners / Listener.prev",
 ]
 OPEN = ["ownPts (Ephem.iter without step) is proved equal to the code's loop by definition only; its characterisation as 'the tabulated dates within [start, stop]' for sorted points is not proved",
         "Dates given as a DateRange object: modelled and in the correspondence, no theorem"]
 RULE = ("correspondence: per propagator kind (sgp4, kepler, j2, none, num, cw, ephem) random keyword combinations of iter (start absent/None/before/at/after epoch, "
         "stop date/timedelta/absent, step absent/None/positive/negative/zero, dates list / DateRange, strict) and random histories of <= 8 propagate/iter calls on two "
-        "orbits sharing one propagator and two listeners (full, partial, zero consumption); non-trivial = >= 2 dates yielded resp. >= 2 calls; distinct = distinct request line. "
+        "orbits (every element different) sharing one propagator and two listeners (full, partial, zero consumption; start/stop/step, explicit dates and DateRange forms; "
+        "in-place modifications of the orbits between calls), the trace compared being dates, end kind, bound orbit, number of re-bindings, Listener.prev and WHOSE trajectory "
+        "(orbit object, number of modifications seen) the returned state lies on; non-trivial = >= 2 dates yielded resp. >= 2 calls; distinct = distinct request line. "
         "oracle: the contract list start + k*step on the real API for all 7 kinds both directions, yielded state == direct propagate from fresh objects, "
         "explicit lists, histories vs fresh objects (bitwise), receiver snapshots")
 U = 125_000            # grid of the generated dates, in microseconds (0.125 s: exact in the float seconds of Date)
+FLIP = 700_000_000     # the correspondence's test listener changes sign every FLIP microseconds (Drv/C08.lean: flipPeriod)
+FLIP_OFFSET = 31_250   # ... at dates k*FLIP + FLIP_OFFSET, never on the 0.125 s grid of the generated dates (Drv/C08.lean: flipOffset)
 CAP = 400              # at most this many items are consumed from one iterator (model fuel)
 
 TLE = """ISS (ZARYA)
 1 25544U 98067A   18124.50000000  .00001524  00000-0  30197-4 0  999{c1}
 2 25544  51.6421 236.2139 0003381  47.8509  47.6767 15.5419822911173{c2}"""
+
+# a second satellite (every element differs), same whole-second epoch
+TLE2 = """OTHER
+1 40000U 14001A   18124.50000000  .00000210  00000-0  15000-4 0  999{c1}
+2 40000  97.4021 101.5523 0012345 210.4401 130.1277 14.8123456712345{c2}"""
 
 KINDS = ["sgp4", "kepler", "j2", "none", "num", "cw", "ephem"]
 ANALYTICAL = ["sgp4", "kepler", "j2", "none", "cw"]
@@ -94,9 +106,9 @@ ANALYTICAL = ["sgp4", "kepler", "j2", "none", "cw"]
 
 # ---------------------------------------------------------------- real objects
 
-def _tle_text():
+def _tle_text(text=None):
     from beyond.io.tle import Tle
-    l = TLE.split("\n")
+    l = (text or TLE).split("\n")
     l1 = l[1].replace("{c1}", "")
     l2 = l[2].replace("{c2}", "")
     return "\n".join([l[0], l1 + str(Tle._checksum(l1 + "0")), l2 + str(Tle._checksum(l2 + "0"))])
@@ -126,27 +138,35 @@ class World:
         self.h = h
         self.e = epoch()
         el = list(elems or [7.0e6, 0.01, 0.9, 1.0, 2.0, 3.0])
-        el2 = list(el)
-        el2[5] += 0.7
+        # the second orbit differs from the first in EVERY element (a stale quantity derived from any of them shows)
+        el2 = [el[0] * 1.06, el[1] + 0.013, el[2] + 0.21, el[3] + 0.4, el[4] + 0.3, el[5] + 0.7]
         self.listeners = [NodeListener(), ApsideListener()]
         if silent_listeners:
-            # a listener whose watched quantity never changes sign: `prev` is maintained, `_bisect` never runs
-            # (the model has no event search; the correspondence compares dates, binding and `prev` only)
-            class Silent(Listener):
+            # test listeners for the correspondence: the watched quantity is a function of the DATE alone, it changes sign
+            # every FLIP microseconds (so the model knows between which consecutive dates an event is found), except for the
+            # numerical propagator where it never does (`_bisect` there needs an interpolable span: known finding)
+            from beyond.propagators.listeners import Event
+            e0 = self.e
+            flip = (kind != "num")
+
+            class Flip(Listener):
                 def info(self, orb):
-                    return None
+                    return Event(self, "flip")
 
                 def __call__(self, orb):
-                    return 1.0
-            self.listeners = [Silent(), Silent()]
+                    if not flip:
+                        return 1.0
+                    return 1.0 if ((round((orb.date - e0).total_seconds() * 1e6) - FLIP_OFFSET) // FLIP) % 2 == 0 else -1.0
+            self.listeners = [Flip(), Flip()]
         self.eph = None
         if kind == "sgp4":
             from beyond.io.tle import Tle
             a = Tle(_tle_text()).orbit()
             if us_of(a.date, self.e) != 0:
                 raise RuntimeError("TLE epoch is not the whole-second epoch the generator assumes")
-            b = a.copy()
-            b[4] += 0.7          # TLE form: (i, Omega, e, omega, M, n)
+            b = Tle(_tle_text(TLE2)).orbit()
+            if us_of(b.date, self.e) != 0:
+                raise RuntimeError("TLE2 epoch is not the whole-second epoch the generator assumes")
             b.propagator = a.propagator
             self.orbits = [a, b]
         elif kind in ("kepler", "j2", "none", "num"):
@@ -181,6 +201,21 @@ class World:
     def date(self, us):
         return self.e + td(us)
 
+    def modify(self, idx):
+        """the user changes elements of an orbit object in place (size and phase of the orbit)"""
+        o = self.orbits[idx]
+        if self.kind == "sgp4":          # TLE form: (i, Omega, e, omega, M, n)
+            o[5] *= 1.0007
+            o[4] += 0.25
+        elif self.kind == "cw":
+            o[0] += 10.0
+            o[4] += 0.01
+        elif self.kind == "ephem":
+            raise ValueError("no in-place modification of an ephemeris in this harness")
+        else:                            # keplerian / keplerian_mean: (a, e, i, Omega, omega, anomaly)
+            o[0] *= 1.001
+            o[5] += 0.25
+
     def kwargs(self, a):
         """a: dict with optional start/stop/stopdelta/step/dates (microseconds relative to the epoch) -> iter kwargs"""
         from beyond.dates import Date
@@ -208,6 +243,7 @@ class World:
         """-> (list of yielded items, terminator) ; item = date in microseconds (events are skipped unless events=True)"""
         items = []
         orbs = []
+        self.n_events = 0
         try:
             it = self.orbits[idx].iter(**self.kwargs(a))
             n = 0
@@ -219,6 +255,7 @@ class World:
                 o = next(it)
                 ev = getattr(o, "event", None)
                 if ev is not None and not events:
+                    self.n_events += 1
                     continue
                 n += 1
                 items.append(us_of(o.date, self.e))
@@ -399,6 +436,8 @@ def real_iter_line(kind, h, npts, a, order):
 
 
 def enc_call(c):
+    if c["op"] == "modify":
+        return f"M/{c['orb']}"
     if c["op"] == "propagate":
         return f"P/{c['orb']}/{c['date']}"
     ls = c["args"].get("listeners") or []
@@ -422,16 +461,48 @@ def real_trace(kind, h, npts, calls):
         for i, x in enumerate(w.orbits):
             if o is x:
                 return str(i), len(seen)
-        for i, x in enumerate(w.orbits):
-            if np.array_equal(np.array(o), np.array(x.copy(form=o.form, frame=o.frame))):
-                return str(i), len(seen)
+        for i, vs in enumerate(vers):       # a converted copy of some value the orbit object has had
+            for x in vs:
+                if np.array_equal(np.array(o), np.array(x.copy(form=o.form, frame=o.frame))):
+                    return str(i), len(seen)
         return "?", len(seen)
 
+    # every value each orbit object has had (frozen copies with a propagator of their own), to tell whose trajectory a
+    # returned state lies on: token v<orbit>.<number of in-place modifications seen>
+    vers = [[o.copy()] for o in w.orbits] if kind != "ephem" else []
+    memo = {}
+
+    def whose(state):
+        if kind == "ephem" or state is None:
+            return "-"
+        d = us_of(state.date, w.e)
+        sc = np.array(state.copy(form="cartesian")) if kind != "cw" else np.array(state)
+        for j, vs in enumerate(vers):
+            for k, v in enumerate(vs):
+                if (j, k, d) not in memo:
+                    r0 = v.propagate(w.date(d))
+                    memo[(j, k, d)] = np.array(r0.copy(form="cartesian")) if kind != "cw" else np.array(r0)
+                ref = memo[(j, k, d)]
+                if kind == "num":
+                    same = float(np.max(np.abs(sc[:3] - ref[:3]))) <= 1.0 and float(np.max(np.abs(sc[3:] - ref[3:]))) <= 1e-3
+                else:
+                    same = np.array_equal(sc, ref)
+                if same:
+                    return f"{j}.{k}"
+        return "?"
+
     for c in calls:
-        if c["op"] == "propagate":
+        first = None
+        w.n_events = 0
+        if c["op"] == "modify":
+            w.modify(c["orb"])
+            vers[c["orb"]].append(w.orbits[c["orb"]].copy())
+            run = " done"
+        elif c["op"] == "propagate":
             try:
                 r = w.orbits[c["orb"]].propagate(w.date(c["date"]))
                 run = f"{us_of(r.date, w.e)} done"
+                first = r
             except Exception as ex:  # noqa: BLE001
                 run = " " + err_kind(ex)
         else:
@@ -443,11 +514,12 @@ def real_trace(kind, h, npts, calls):
                 except Exception as ex:  # noqa: BLE001
                     run = " " + err_kind(ex)
             else:
-                got, fin, _ = w.run_iter(c["orb"], c["args"], limit=c["consume"])
+                got, fin, orbs = w.run_iter(c["orb"], c["args"], limit=c["consume"])
                 run = ",".join(str(x) for x in got) + " " + fin
+                first = orbs[0] if orbs else None
         b, r = observe()
         prev = ",".join("N" if L.prev is None else str(us_of(L.prev.date, w.e)) for L in w.listeners)
-        outs.append(f"{run} b{b} r{r} p{prev}")
+        outs.append(f"{run} b{b} r{r} v{whose(first)} e{w.n_events} p{prev}")
     return " | ".join(outs)
 
 
@@ -475,7 +547,7 @@ def correspondence(ctx):
                     c = gen_call(rng, kind, h, npts, n_orb)
                 calls.append(c)
             cases.append(("hist", kind, h, npts, calls, f"c08hist {kind} {CAP} {order} {h} {npts} 2 " + " ".join(enc_call(c) for c in calls)))
-    model = core.Driver().run([c[5] for c in cases])
+    model = core.Driver(ID).run([c[5] for c in cases])
     for (what, kind, h, npts, x, line), m in zip(cases, model):
         if what == "iter":
             real = real_iter_line(kind, h, npts, x, order)
@@ -599,9 +671,22 @@ def check_iter(out, w, a, order, npts, states=True):
                 return
 
 
-def gen_call(rng, kind, h, npts, n_orb):
+def gen_call(rng, kind, h, npts, n_orb, modify=True):
     idx = rng.randrange(n_orb)
     ls = rng.choice([[], [], [0], [1], [0, 1]])
+    r0 = rng.random()
+    if modify and kind != "ephem" and r0 < 0.12:
+        return {"op": "modify", "orb": idx}
+    if r0 < 0.30:
+        # explicit list of dates (a DateRange for the numerical propagator, which takes nothing else), spread over an orbit
+        hi = (npts - 1) * h // U if kind == "ephem" else 90 * 60 * 8
+        lo = 0 if kind == "ephem" else -hi
+        if kind == "num":
+            s0 = rng.randrange(-4 * h // U, 4 * h // U) * U
+            a = {"range": [s0, s0 + rng.choice([7, 9, 12]) * h, h, True], "listeners": ls}
+        else:
+            a = {"dates": [rng.randrange(lo, hi + 1) * U for _ in range(rng.choice([1, 2, 3, 5]))], "listeners": ls}
+        return {"op": "iter", "orb": idx, "args": a, "consume": rng.choice([CAP, CAP, 2])}
     if rng.random() < 0.45:
         if kind == "ephem":
             d = rng.randrange(0, (npts - 1) * h // U + 1) * U
@@ -627,6 +712,9 @@ def gen_call(rng, kind, h, npts, n_orb):
 
 def do_call(w, c):
     """-> canonical observable result of one call"""
+    if c["op"] == "modify":
+        w.modify(c["orb"])
+        return ("modified",)
     if c["op"] == "propagate":
         try:
             r = w.orbits[c["orb"]].propagate(w.date(c["date"]))
@@ -645,18 +733,38 @@ def check_history(out, kind, h, npts, calls):
     res = None
     for i, c in enumerate(calls):
         res = do_call(w, c)
+        if c["op"] == "modify":
+            snap = w.snapshot()
+            continue
         if w.snapshot() != snap:
             out.fail(f"{kind}-receiver-modified-by-{c['op']}", "a propagate/iter call modified the orbit (or the ephemeris points) it was called on",
                      dict(inp, at=i))
             return
     last = dict(calls[-1])
+    if last["op"] == "modify":
+        return
+    # fresh objects holding the same orbit values: only the in-place modifications are replayed
     f = World(kind, h=h, npts=npts)
+    for c in calls[:-1]:
+        if c["op"] == "modify":
+            f.modify(c["orb"])
     ref = do_call(f, last)
     out.count(key=(kind, repr(calls)), nontrivial=len(calls) > 1, kind="history-" + kind, calls=len(calls), last=last["op"])
     if res != ref:
+        def main_dates(r):
+            # the requested dates only: event states are dated by the trajectory, they count as 'state'
+            return [d for d, e in zip(r[2], r[4]) if e == ""]
         what = "error kind" if res[0] == "err" or ref[0] == "err" or (res[0] == "iter" and res[1] != ref[1]) else (
-            "dates" if (res[0] == "iter" and res[2] != ref[2]) or (res[0] == "ok" and res[1] != ref[1]) else "state")
-        out.fail(f"{kind}-history-dependent-{last['op']}-{what}", "the result of a call depends on earlier calls on the same objects",
+            "dates" if (res[0] == "iter" and main_dates(res) != main_dates(ref)) or (res[0] == "ok" and res[1] != ref[1]) else (
+                "events" if res[0] == "iter" and [e for e in res[4] if e] != [e for e in ref[4] if e] else "state"))
+        # family: propagator kind, kind of the last call, what differs, and whether the receiver of the last call had been
+        # modified in place by the user earlier in the history (a binding that is not refreshed) or not (a shared object
+        # carrying state from call to call)
+        changed = any(c["op"] == "modify" and c["orb"] == last["orb"] for c in calls[:-1])
+        if changed and what == "events":
+            what = "state"          # another trajectory has other events: one family with the states themselves
+        out.fail(f"{kind}-history-dependent-{what}-after-inplace-change" if changed else f"{kind}-history-dependent-{last['op']}-{what}",
+                 "the result of a call depends on earlier calls on the same objects",
                  inp, observed=_short(res), expected=_short(ref))
 
 
